@@ -88,8 +88,24 @@ def read_header(data, nrec):
         signal.setitimer(signal.ITIMER_REAL, 0)
 
 
+STREAM = ['bytesio']
+
+
+def _open(data):
+    if STREAM[0] == 'bytesio':
+        return io.BytesIO(data)
+    if STREAM[0].startswith('buffered-'):
+        return io.BufferedReader(io.BytesIO(data),
+                                 buffer_size=int(STREAM[0].split('-')[1]))
+    import tempfile
+    f = tempfile.TemporaryFile()
+    f.write(data)
+    f.seek(0)
+    return f
+
+
 def _read_header(data, nrec):
-    r = DiffXReader(io.BytesIO(data))
+    r = DiffXReader(_open(data))
     recs = []
     try:
         for rec in r:
@@ -239,6 +255,8 @@ def plan(tier):
         k = 3 if tier == 'quick' else 4
         units.append(('tokens', npairs, k))
     units.append(('prefix',))
+    for kind in ('buffered-16', 'buffered-64', 'file'):
+        units.append(('tokens-stream', kind))
     for lo in range(0, 256, 32):
         units.append(('line-start', lo, lo + 32))
     units.append(('contexts',))
@@ -404,6 +422,27 @@ def _run_unit(unit, tier, acc):
                     one(b'#.change: ' + tok + b'=v')
                     one(b'#.change: a=b, id=' + tok + b', c=d')
         acc.sample({'scale': 'option values / keys / counts of 9..65537'}, 1)
+    elif unit[0] == 'tokens-stream':
+        # the one-pair token product again, read through a buffered stream
+        # / a real file (the grammar does not depend on the kind of stream)
+        STREAM[0] = unit[1]
+        try:
+            doms = token_domains(1)
+            for vec in itertools.product(*doms):
+                one(b'#.change:' + build_tokens(list(vec), 1),
+                    {'stream': unit[1]})
+            for npairs in (2, 3):
+                doms = token_domains(npairs)
+                base = [d[0] for d in doms]
+                for i, d in enumerate(doms):
+                    for alt in d[1:]:
+                        vec = list(base)
+                        vec[i] = alt
+                        one(b'#.change:' + build_tokens(vec, npairs),
+                            {'stream': unit[1]})
+        finally:
+            STREAM[0] = 'bytesio'
+        acc.sample({'stream_kind': unit[1]}, 1)
     elif unit[0] == 'line-start':
         # what may precede the "#": nothing. Every byte, every pair of
         # bytes, every codec's signature (BOM) and every triple / quadruple
@@ -518,5 +557,9 @@ def replay(payload):
         kw['index'] = payload['index']
     if 'tail' in payload:
         kw['tail'] = from_jsonable(payload['tail'])
-    viols = check_header(from_jsonable(payload['header']), **kw)
+    STREAM[0] = payload.get('stream', 'bytesio')
+    try:
+        viols = check_header(from_jsonable(payload['header']), **kw)
+    finally:
+        STREAM[0] = 'bytesio'
     return [{'key': k, 'msg': m} for k, m in viols]
